@@ -21,6 +21,21 @@ CHECKS = {
    technique="TLA+ spec EventLog.tla (PatchChecked/RewindPatch/ReplaceAll/RewindRollback actions) model-checked with TLC; every refusal edge replayed on real fs + sqlite logs with before/after comparison",
    text="Same specification and replay as C06, attributed to the checked-patch / rewind-and-patch / replace-all / rollback actions: TLC enumerates every log state x checkpoint (matching, stale, diverged) x patch x rewind target of the bounded instance and checks RefusedUnchanged; each such edge is executed on both backends and the full record stream and tree must equal the spec's (unchanged on refusal, appended exactly on success).",
    note="Log-level composite actions mirror server_helpers::event_patch's rewind/merge/rollback idiom; the real server function is exercised by the Sync world (C04/C05/C09) once registered."),
+ "C01": dict(
+   level="model_checking", design="DESIGN.md 6.4, 7 (C01)",
+   technique="TLA+ spec Account.tla model-checked with TLC; transition tour of the reachable graph replayed on LocalAccount over fs + sqlite in lock-step with per-step read/list comparison",
+   text="Account.tla has one action per Account trait call (create/update/delete/move/archive/unarchive secrets; create/rename/re-flag/describe/delete folders; SignOut;SignIn and Lock;Unlock as ordinary actions so TLC places them at every state); TLC checks MovedInExactlyOne, OnlyExistingHold, ServedUnchanged on the complete graph of the bounded instance; every edge (quick: one representative per source/target/action/first argument) is replayed on LocalAccount on both backends; after every step read_secret of every slot under its current and all stale ids, list_secret_ids, list_folders and folder_description must equal the spec state, and the two backends must agree.",
+   note="harness/src/account_world.rs projection (public API only) and values.rs token table; XChaCha20 only in quick (AES-GCM instances in thorough); folder-level API with caller-chosen ids is not yet modelled; bounds in evidence."),
+ "C02": dict(
+   level="model_checking", design="DESIGN.md 6.3/6.4, 7 (C02)",
+   technique="TLA+ spec Account.tla behaviours (TLC transition tour) replayed on LocalAccount; after every step reduce(event log) = served folder = persisted vault compared after decryption, on fs + sqlite",
+   text="The behaviours enumerated by TLC from Account.tla (local edits, moves, folder operations, compaction, reload) are executed on LocalAccount on both backends; after every step and for every folder the harness decrypts and compares FolderReducer::reduce(log).build(), the vault the account serves and the vault persisted in the vault file / sqlite rows (name, flags, description, id set, per-id content). This is the direct predicate of C02 evaluated at every state of every enumerated history.",
+   note="Merges from other devices (checked, auto, forced) are not in Account.tla; they belong to the Sync module, not yet registered. ReduceUntil(k) for earlier commits not yet checked."),
+ "C12": dict(
+   level="model_checking", design="DESIGN.md 6.3/6.4, 7 (C12)",
+   technique="TLA+ spec Account.tla actions Compact/ChangeFolderPassword/ChangeAccountPassword with key epochs, model-checked with TLC; transition tour replayed on LocalAccount (fs + sqlite)",
+   text="Compact, ChangeFolderPassword and ChangeAccountPassword are actions of Account.tla enabled at every state of histories with renames, description/flag changes and deletes; TLC checks ServedUnchanged and CompactLength; in the replay, after each such step the served state must equal the spec state (unchanged), the folder log must have exactly 1 + |live| events starting with the creation event, reduce(log) = served = persisted, the previous folder password must no longer unlock the persisted folder nor the vault rebuilt from the event log, the new one must, and the old account password must no longer sign in.",
+   note="ChangeCipher and KDF pairs not yet modelled; 'no blob under the old key remains' is checked for the vault rebuilt from the log and the persisted vault, not by scanning raw storage bytes."),
 }
 
 NOT_YET = {
